@@ -269,6 +269,12 @@ pub fn dupmode(tier: Tier, w: &Arc<World>) -> Scn {
     xc.per_block_ack = d.chance("swarm.reader.per_block_ack", 1, 4);
     xc.resend_request = false;
     xc.timeout_ns = oc.tmo_s * SEC * 3;
+    if upload && d.chance("swarm.close_when_done", 1, 3) {
+        // like tftpc, atftp, curl: the client closes its socket as soon as it has the final ACK; on
+        // loopback the server's remaining copies then bounce (ICMP port unreachable)
+        xc.close_when_done = true;
+        w.lock().icmp = true;
+    }
     let mut fc = FaultCfg::default();
     if d.chance("swarm.net_dup", 1, 3) {
         fc.fate_w = [20, 0, 3, 1, 0, 0];
@@ -280,7 +286,8 @@ pub fn dupmode(tier: Tier, w: &Arc<World>) -> Scn {
     let desc = format!("N={n} {} {} len={len} opts={:?} eager_reack={} per_block={}", srv.describe(), if upload { "upload" } else { "download" }, oc.opts, xc.eager_reack, xc.per_block_ack);
     let kind = if upload { Kind::Upload } else { Kind::Download };
     let (peer, client) = if upload { w.add_peer(Box::new(Writer::new(xc, data.to_vec())), false, 0) } else { w.add_peer(Box::new(Reader::new(xc)), false, 0) };
-    let spec = XferSpec { client, peer, kind, content: data, path, conformant: true, dally: true, timeout_ratio: 1 };
+    // the peer's timer is three server timeouts long: one reordering can cost three failed receives
+    let spec = XferSpec { client, peer, kind, content: data, path, conformant: true, dally: true, timeout_ratio: 3 };
     w.add_monitor(Box::new(DupMon::new(n)));
     w.add_monitor(Box::new(XferMon::new("C16", Rules { c01: true, c02: true, c04: true, c08: true, ..Default::default() }, vec![spec], n)));
     boot_server(w, &srv).expect("server config");
